@@ -18,6 +18,12 @@
 (*        (deck, cloud-free) at the wavenumber where dw/cw is smallest,    *)
 (*        as decimal observations                                          *)
 (*                                                                         *)
+(*  ev = "mix"   a cloud / haze next to a band-saturating absorber in one  *)
+(*        model: ta[k][w], th[k][w] transmittance of tangent layer k at    *)
+(*        wavenumber w with the absorber alone / the cloud or haze alone,  *)
+(*        tb[o][k][w] with both, for every order o in which they were      *)
+(*        added; decimal observations (0 for values below 1e-50), ppb      *)
+(*                                                                         *)
 (* Stateless stream: every event gets a verdict (set of failed clauses).   *)
 (***************************************************************************)
 EXTENDS Clouds, IOUtils, TLCExt
@@ -75,7 +81,21 @@ DeckFails(e) ==
                          ELSE {"depth_at_least_opaque_integral"})
               ELSE {})
 
+MixFails(e) ==
+    LET n  == Len(e.ta)
+        wf == /\ n >= 1 /\ Len(e.th) = n /\ Len(e.tb) >= 1
+              /\ \A k \in 1..n : /\ Len(e.ta[k]) >= 1 /\ Len(e.th[k]) = Len(e.ta[k])
+                                 /\ \A w \in 1..Len(e.ta[k]) : ObsOk(e.ta[k][w]) /\ ObsOk(e.th[k][w])
+              /\ \A o \in 1..Len(e.tb) : /\ Len(e.tb[o]) = n
+                                         /\ \A k \in 1..n : /\ Len(e.tb[o][k]) = Len(e.ta[k])
+                                                            /\ \A w \in 1..Len(e.ta[k]) : ObsOk(e.tb[o][k][w])
+    IN  IF ~wf THEN {"mix_wellformed"}
+        ELSE IF \A o \in 1..Len(e.tb) : \A k \in 1..n : \A w \in 1..Len(e.ta[k]) :
+                    MixOk(DOf(e.tb[o][k][w]), DOf(e.ta[k][w]), DOf(e.th[k][w]), e.ppb)
+             THEN {} ELSE {"model_transmittance_is_product"}
+
 Fails(e) == IF e.ev = "haze" THEN HazeFails(e)
+            ELSE IF e.ev = "mix" THEN MixFails(e)
             ELSE IF e.ev = "deck" THEN DeckFails(e)
             ELSE {"unknown_event"}
 
